@@ -131,7 +131,7 @@ def run(rep, tier):
             if ctrl:
                 rep.fail('R04.1', '%s|control flow' % q, locstr(ctrl[0]), '%s is no longer a straight-line writer: %s at %s' % (q, ctrl[0]['k'], locstr(ctrl[0])))
         total_lines = len(text.splitlines())
-        d = os.path.join(facts.WORK, 'cgen')
+        d = os.path.join(facts._cache_dir(), 'cgen')
         os.makedirs(d, exist_ok=True)
         pth = os.path.join(d, 'cgen_%s.c' % alt)
         open(pth, 'w').write(text)
